@@ -23,7 +23,7 @@ EXPLANATION = (
     "integers; no sound static argument in reach — DESIGN.md section 6)."
 )
 ASSUMPTIONS = ["CPython ast parses /repo's source as the interpreter would"]
-MIN_INSTANCES = {"R-10a": 8, "R-10b": 3, "R-10c": 5, "R-10d": 3}
+MIN_INSTANCES = {"R-10e": 3, "R-10a": 8, "R-10b": 3, "R-10c": 5, "R-10d": 3}
 
 
 def r10a(model, ctx):
@@ -269,4 +269,26 @@ def r10d(model, ctx):
               "Const(value, shape-castable) must check that shape.const() returned a constant of the shape it casts to", f"{AST_PY}:{fm.lineno}")
 
 
-RULES = [("R-10a", r10a), ("R-10b", r10b), ("R-10c", r10c), ("R-10d", r10d)]
+def r10e(model, ctx):
+    """the bit-count helpers are exact for every integer: integer arithmetic only (no float functions, true division, float
+    literals), which a 53-bit mantissa cannot give for wide values"""
+    R = "R-10e"
+    UT = "amaranth/utils.py"
+    for name in ("ceil_log2", "exact_log2", "bits_for"):
+        f = model.func(f"{UT}::{name}")
+        bad = []
+        for n in ast.walk(f):
+            if isinstance(n, ast.Attribute) and isinstance(n.value, ast.Name) and n.value.id in ("math", "cmath", "numpy", "np"):
+                bad.append(unparse(n))
+            if isinstance(n, ast.BinOp) and isinstance(n.op, ast.Div):
+                bad.append(unparse(n))
+            if isinstance(n, ast.Constant) and isinstance(n.value, float):
+                bad.append(repr(n.value))
+            if isinstance(n, ast.Call) and dotted(n.func) in ("float", "log2", "log", "ceil", "floor", "sqrt", "round"):
+                bad.append(unparse(n))
+        ctx.check(not bad, R, f"utils.{name}:integer-only", "integer operations only",
+                  f"utils.{name} uses floating-point arithmetic ({bad[:3]}): the result is wrong for arguments beyond 2**52, which "
+                  f"silently narrows Shape.cast(range(..)) and Const(value) for wide values", f"{UT}:{f.lineno}")
+
+
+RULES = [("R-10e", r10e), ("R-10a", r10a), ("R-10b", r10b), ("R-10c", r10c), ("R-10d", r10d)]
